@@ -6,7 +6,7 @@ import "io"
 
 func vN() int {
 	if vThorough() {
-		return 40
+		return 32
 	}
 	return 24
 }
